@@ -17,9 +17,9 @@ from ..framework import Check
 class C11(Check):
     pid = "C11"
     title = "Behaviour membership and emptiness agree with exact arithmetic"
-    level_text = 'Lean theorems contains_iff / contains_false_iff / contains_err_iff / isEmpty_iff / contains_mono about the executable model of evaluate, contains_behavior and is_empty (all lists, all behaviours, any certified LP oracle), tied to polyhedra.py by an exact Boolean/error-kind correspondence on boundary, inside and outside points and on feasible/infeasible/thin systems; failing-input search by exact rational evaluation and certified LP.'
+    level_text = 'Lean theorems contains_iff / contains_false_iff / contains_err_iff / isEmpty_iff / contains_mono about the executable model of evaluate, contains_behavior and is_empty (all lists — isEmpty_iff also for rows without variables since fix 0e454c1, whose presence is read off the source: Gen.emptyNoColsBySign —, all behaviours, any certified LP oracle), tied to polyhedra.py by an exact Boolean/error-kind correspondence on boundary, inside and outside points and on feasible/infeasible/thin systems; failing-input search by exact rational evaluation and certified LP.'
     lean_modules = ["Pacti.Props.C11"]
-    theorems = ["Pacti.C11.contains_iff", "Pacti.C11.contains_err_iff", "Pacti.C11.isEmpty_iff", "Pacti.C11.contains_mono"]
+    theorems = ["Pacti.C11.contains_iff", "Pacti.C11.contains_false_iff", "Pacti.C11.contains_err_iff", "Pacti.C11.isEmpty_iff", "Pacti.C11.contains_mono"]
     quick_n = 3000
     thorough_n = 120000
     trusted_base = [
